@@ -195,6 +195,77 @@ def usTag : US → String
   | .present _ (.present .malformed _ _) => "us:partition-malformed"
   | .present _ (.present (.int _) _ _) => "us:partition"
 
+/-! ### op `verdict` -/
+
+def podOwnerOf : String → R PodOwner
+  | "none" => pure .none | "this" => pure .this | "other" => pure (.other false) | "via" => pure (.other true)
+  | s => .error s!"ctlsts: pod owner {s}"
+
+def condOfJson (j : Json) : R (String × String) := do
+  match ← jarr j with
+  | [a, b] => return (← jstr a, ← jstr b)
+  | _ => .error "ctlsts: pod condition"
+
+def podOfJson (j : Json) : R Pod := do
+  return { inNamespace := ← fBool j "inNamespace", selMatch := ← fBool j "selMatch", phase := ← fStr j "phase",
+           owner := ← podOwnerOf (← fStr j "owner"), terminating := ← fBool j "terminating",
+           hashLabel := ← fStr j "hashLabel", revLabel := ← fStr j "revLabel",
+           conds := ← (← fArrD j "conds").mapM condOfJson }
+
+def degradeOf : String → R Degrade
+  | "notReady" => pure .notReady | "terminating" => pure .terminating | "otherRevision" => pure .otherRevision
+  | "deleted" => pure .deleted | "failed" => pure .failed | "disowned" => pure .disowned
+  | s => .error s!"ctlsts: degrade {s}"
+
+def degradeStr : Degrade → String
+  | .notReady => "notReady" | .terminating => "terminating" | .otherRevision => "otherRevision"
+  | .deleted => "deleted" | .failed => "failed" | .disowned => "disowned"
+
+def readyStr : RV.BatchCtx.Ready → String
+  | .ok => "ok" | .notUpdated => "notUpdated" | .notReady => "notReady" | .noneReady => "noneReady"
+  | .notLabelled => "notLabelled"
+
+def verdictStr : Verdict → String
+  | .is r => readyStr r
+  | .err => "err"
+
+def verdictOf : String → R Verdict
+  | "ok" => pure (.is .ok) | "notUpdated" => pure (.is .notUpdated) | "notReady" => pure (.is .notReady)
+  | "noneReady" => pure (.is .noneReady) | "notLabelled" => pure (.is .notLabelled) | "err" => pure .err
+  | s => .error s!"ctlsts: verdict {s}"
+
+def countersToJson (c : Counters) : Json :=
+  mkObj [("replicas", intJ c.replicas), ("updated", intJ c.updated), ("updatedReady", intJ c.updatedReady)]
+
+def ctxToJson (c : RV.BatchCtx.Ctx) : Json :=
+  mkObj [("updated", intJ c.updated), ("updatedReady", intJ c.updatedReady), ("desired", intJ c.desired),
+    ("planned", intJ c.planned), ("currentPartition", intJ (RV.BatchCtx.intVal c.knobCur)),
+    ("desiredPartition", intJ (RV.BatchCtx.intVal c.knobDes))]
+
+def verdictOutToJson : Out VerdictOut → Json
+  | .panic => mkObj [("panic", strJ "?")]
+  | .val o => mkObj [("counters", optJ countersToJson o.counters), ("ctx", optJ ctxToJson o.ctx),
+                     ("verdict", strJ (verdictStr o.verdict)), ("writes", natJ o.writes), ("untouched", boolJ true)]
+
+/-- the implementation's answer, parsed back (the context only through the model comparison) -/
+def verdictOutOfJson (j : Json) : R (Out VerdictOut) :=
+  match jopt j "panic" with
+  | some _ => pure .panic
+  | none => do
+    let counters ← (match jopt j "counters" with
+      | none => pure none
+      | some c => do
+        pure (some { replicas := ← fInt c "replicas", updated := ← fInt c "updated", updatedReady := ← fInt c "updatedReady" : Counters }))
+    let untouched ← fBool j "untouched"
+    -- a check that touched the cluster is reported as one that wrote
+    return .val { counters := counters, ctx := none, verdict := ← verdictOf (← fStr j "verdict"),
+                  writes := (← fNat j "writes") + (if untouched then 0 else 1) }
+
+/-- (terminating, consistent, ready) of a pod of the workload's own, as a tag -/
+def comboTag (rev : String) (p : Pod) : String :=
+  let b (x : Bool) (c : String) := if x then c else "-"
+  s!"pod:{b p.terminating "T"}{b (isConsistent p rev) "C"}{b (isPodReady p) "R"}"
+
 def handle : Handler := fun op inp impl => do
   match op with
   | "walk" =>
@@ -250,6 +321,87 @@ def handle : Handler := fun op inp impl => do
         | none => []
       | none => []
     return { model := arrJ (model.map outToJson), holds := andAll (stepH ++ pairH ++ rtH ++ wbH), tags := tags ++ rtTags }
+  | "verdict" =>
+    let d ← wlOptOfJson inp "wl"
+    let st ← jget inp "status"
+    let cl : Cluster := { status := { updateRevision := ← fStr st "updateRevision", updated := ← fInt st "updated", ready := ← fInt st "ready" },
+                          pods := ← (← fArrD inp "pods").mapM podOfJson }
+    let rel : Rel := { batches := ← (← fArrD inp "batches").mapM iosOfJson, rollbackAnno := false, updated := 0,
+                       noNeedUpdate := ← fOptInt inp "noNeedUpdate", failureThreshold := ← iosOptOfJson inp "failureThreshold" }
+    let batch ← fInt inp "batch"
+    let fname ← fStr inp "fault"
+    let f ← faultOf fname
+    let deg ← (match jopt inp "degrade" with
+      | none => pure none
+      | some g => do pure (some (← degradeOf (← fStr g "how"), ← fNat g "index")))
+    let cl2 := deg.map fun (h, i) => degraded cl h i
+    let m1 := planeVerdict rel batch d cl f
+    let m2 := cl2.map fun c => planeVerdict rel batch d c f
+    let i1 ← verdictOutOfJson (← jget impl "first")
+    let i2 ← (match jopt impl "second" with
+      | none => pure none
+      | some j => do pure (some (← verdictOutOfJson j)))
+    -- oracles on the implementation's answers
+    let one (cl : Cluster) (o : Out VerdictOut) : List (String × Bool) :=
+      match o with
+      | .val o => [("C11.sts_ready_means_live_ready_pods", verdictSound rel batch d cl o),
+                   ("C11.sts_updated_ready_exact", countersSound d cl o),
+                   ("C07.sts_ready_when_pods_ready", verdictComplete rel batch d cl f o)]
+      | .panic => []
+    let crash (o : Out VerdictOut) : List (String × Bool) :=
+      -- API-reachable inputs (`callInputOK` of the upgradeBatch call, which reads the same plan entry) never crash the check
+      let s : Step := { call := .upgradeBatch, fault := f, batch := batch, bpNil := false, edit := Edit.none }
+      [("C07.sts_no_crash", noCrash rel s d (isPanic o)), ("C09.sts_no_crash", noCrash rel s d (isPanic o))]
+    let fb : List (String × Bool) :=
+      match d, deg, cl2, i1, i2 with
+      | some w, some (h, i), some c2, .val o1, some (.val o2) =>
+        [("C11.sts_falls_back", fallsBack rel batch w cl h i o1 o2)] ++ one c2 (.val o2) ++ crash (.val o2)
+      | _, _, some c2, _, some o2 => one c2 o2 ++ crash o2
+      | _, _, _, _, _ => []
+    -- tags
+    let rev := cl.status.updateRevision
+    let vtag (o : Out VerdictOut) := match o with
+      | .val o => verdictStr o.verdict
+      | .panic => "panic"
+    let flip := match i1, i2 with
+      | .val o1, some (.val o2) =>
+        if isReady o1 && !isReady o2 && o2.verdict != .err then ["fallback:flipped"]
+        else if isReady o1 && isReady o2 then ["fallback:still-ready"] else []
+      | _, _ => []
+    let degTags := match deg with
+      | some (h, i) =>
+        [s!"degrade:{degradeStr h}"] ++
+        (match cl.pods[i]? with
+         | some p => if liveReadyUpdated rev p then ["degrade:of-counted-pod"] else ["degrade:of-other-pod"]
+         | none => ["degrade:nothing"])
+      | none => []
+    let own := cl.pods.filter fun p => p.inNamespace && p.selMatch && isOwned p.owner && !isCompleted p
+    let tags := ["op:verdict", s!"verdict:{vtag i1}"] ++
+      (match i2 with
+       | some o => [s!"verdict2:{vtag o}"]
+       | none => []) ++
+      (match d with
+       | some w => [s!"kind:{kindStr w.kind}", if needsList w then "counted-from-pods" else "counter-from-status"] ++
+                   (if isUnordered w.kind w.us then ["unordered"] else []) ++
+                   (match replicasOf w with
+                    | some r => if r = 0 then ["size:0"] else []
+                    | none => ["size:nil"])
+       | none => ["nowl"]) ++
+      (if f != .none then [s!"fault:{fname}"] else []) ++
+      (if rel.failureThreshold.isSome then ["failureThreshold"] else []) ++
+      (if rel.noNeedUpdate.isSome then ["noNeedUpdate"] else []) ++
+      [s!"pods:{if cl.pods.length ≥ 8 then "8+" else toString cl.pods.length}"] ++
+      (own.map (comboTag rev)).eraseDups ++
+      (if cl.pods.any (fun p => !p.inNamespace) then ["pod:other-namespace"] else []) ++
+      (if cl.pods.any (fun p => !p.selMatch) then ["pod:not-selected"] else []) ++
+      (if cl.pods.any isCompleted then ["pod:completed"] else []) ++
+      (if cl.pods.any (fun p => p.owner == .none) then ["pod:no-controller"] else []) ++
+      (if cl.pods.any (fun p => p.owner == .other false) then ["pod:foreign-owner"] else []) ++
+      (if cl.pods.any (fun p => p.owner == .other true) then ["pod:owned-via"] else []) ++
+      (if cl.pods.isEmpty then ["pods:none"] else []) ++
+      degTags ++ flip
+    return { model := mkObj [("first", verdictOutToJson m1), ("second", optJ verdictOutToJson m2)],
+             holds := andAll (one cl i1 ++ crash i1 ++ fb), tags := tags }
   | _ => .error s!"ctlsts: unknown op {op}"
 
 end RV.Drv.CtlSts
